@@ -364,6 +364,49 @@ CORPUS = [
 ]
 
 
+def shared_container_oracle(ck) -> int:
+    """one list / tuple / TagList object occurring several times inside ONE displayed value (a separator reused between
+    items): every occurrence contributes its items, in order — the block's tag ends up with exactly what the same value built
+    from separate equal containers gives"""
+    import sys
+    from htmltools import Tag, TagList
+    n = 0
+
+    def collect(value):
+        t = Tag("div")
+        old = sys.displayhook
+        sys.displayhook = lambda v: None          # the finished tag is handed to this hook, silently
+        try:
+            with t:
+                sys.displayhook(value)
+        finally:
+            sys.displayhook = old
+        return [str(c) for c in t.children]
+
+    makers = [("list", lambda: ["-", Tag("br")]), ("tuple", lambda: ("-", 7)), ("TagList", lambda: TagList("-", Tag("hr"))), ("nested", lambda: [["x"], ("y",)]),
+              ("empty list", lambda: [])]
+    shapes = [("twice in a list", lambda a, b: ["one", a, "two", b, 3]), ("twice in a tuple", lambda a, b: (a, b)),
+              ("at two depths", lambda a, b: ["p", a, ["q", b]]), ("three times", lambda a, b: [a, b, a])]
+    for ml, mk in makers:
+        for sl, shape in shapes:
+            n += 1
+            ck.holds_checked += 1
+            try:
+                sep = mk()
+                got = collect(shape(sep, sep))
+                want = collect(shape(mk(), mk()) if sl != "three times" else (lambda a, b: [a, b, mk()])(mk(), mk()))
+            except Exception as e:  # noqa: BLE001
+                ck.py_violation(f"shared_container {ml} {sl}", f"raised {type(e).__name__}: {e}", "displaying a value that reuses one container object raised", py=f"{ml}, {sl}")
+                continue
+            if got != want:
+                ck.py_violation(f"shared_container {ml} {sl}", repr(got)[:300],
+                                f"a displayed value in which one {ml} object occurs {sl}: the block's tag collected {got}; the same value built from separate equal "
+                                f"containers gives {want}",
+                                py="sep = ['-', Tag('br')]\nwith Tag('div') as t:\n    sys.displayhook(['one', sep, 'two', sep, 3])\n[str(c) for c in t.children]")
+    ck.exhaustive_scopes.append({"scope": "one container object several times inside one displayed value: 5 container kinds x 4 shapes", "n": n, "exhaustive": True})
+    return n
+
+
 def run(tier: str) -> int:
     ck = core.Check(PID, tier, PROP_FILES)
     ck.prepare()
@@ -449,6 +492,7 @@ def run(tier: str) -> int:
             ck.tagc("outcome-" + im.split(" ", 2)[1])
     ck.add_src(["Tag_appendC17"])        # source tie (DESIGN §14): the regenerated functions against the real ones
     srctie_c17.add_src_c17(ck, ["handler_wrapperC17", "Tag_enterC17", "Tag_exitC17", "wrap_displayhook_handlerC17", "applyCallableC17"])
+    ck.extra_cov["shared_container_cases"] = shared_container_oracle(ck)
     ck.correspond(holds=True)
     return ck.finish(shrink=_shrinker(ck))
 
